@@ -355,6 +355,11 @@ def domain_case(case):
                key=f'dom:{case["seed"]}')
     if ctx['model'] is not None:
         rec['fields'] = raw_fields(kind, ctx['model'])
+        if 'cacg' in getattr(ctx['model'], '__dataclass_fields__', {}):
+            lam = np.asarray(ctx['model'].cacg.covariance_eigenvalues)
+            # a class whose weighted scatter is exactly zero (all its mass on all-zero frames): every eigenvalue equal
+            if np.any(np.all(lam == lam[..., :1], axis=-1) & (lam[..., 0] <= 1e-10)):
+                rec['fp'] += ';zero_scatter_class'
         if 'vmf' in getattr(ctx['model'], '__dataclass_fields__', {}):
             rec['zero_resultant'] = bool(np.any(np.linalg.norm(ctx['model'].vmf.mean, axis=-1) == 0))
     return [rec]
